@@ -33,7 +33,11 @@ CONSUMERS = ["fixes.remove_dead_ifs", "fixes.delete_unreachable_code", "fixes.re
 
 
 def worker_init():
+    import os
+    import sys
+
     progs.worker_setup()
+    sys.stdin = open(os.devnull)  # help() and friends read the terminal
 
 
 def _chunks(seq, n):
@@ -71,13 +75,34 @@ def ref_eval(e):
     return ("val", v)
 
 
+_PLAIN = (int, float, complex, str, bytes, bytearray, bool, type(None), range, type(Ellipsis), type(NotImplemented))
+
+
 def same(a, b):
+    """Same type and same value. Values that have no value equality (iterators, object(), memoryview ...) are compared by
+    type only; texts that spell an address are not compared (the address of a temporary is not part of the value)."""
     if type(a) is not type(b):
         return False
     try:
         if isinstance(a, (list, tuple)):
             return len(a) == len(b) and all(same(x, y) for x, y in zip(a, b))
-        return a == b
+        if isinstance(a, dict):
+            return same(list(a.items()), list(b.items()))
+        if isinstance(a, (set, frozenset)):
+            return a == b
+        if isinstance(a, slice):
+            return same((a.start, a.stop, a.step), (b.start, b.stop, b.step))
+        if isinstance(a, str) and " at 0x" in a and " at 0x" in b:
+            return True
+        if isinstance(a, float) and a != a:
+            return b != b
+        if isinstance(a, _PLAIN):
+            return a == b
+        if isinstance(a, type) or type(a).__name__ == "builtin_function_or_method":
+            return a is b
+        if isinstance(a, BaseException):
+            return same(a.args, b.args)
+        return True
     except Exception:  # noqa: BLE001
         return False
 
@@ -137,8 +162,8 @@ def consumer_program(e, pos):
 def check_consumer(e, pos, entry):
     src = consumer_program(e, pos)
     orig = progs.run_prog(src)
-    if orig[0] != "ok":
-        return [], "not_admitted"
+    if orig[0] != "ok" or " at 0x" in orig[1]:
+        return [], "not_admitted"  # printing an address: the original does not even agree with itself
     desc = {"expr": e, "pos": pos, "entry": entry}
     buf = io.StringIO()
     boot.clear_caches()
